@@ -315,6 +315,22 @@ def check_2d(repo, res, fns):
             par[ch] = p
     for c in loads:
         ndmin = next((k.value for k in c.keywords if k.arg == "ndmin"), None)
+        if ndmin is None:
+            # np.loadtxt(path, **kwargs) with kwargs a dict literal / dict(...) call bound once in the function
+            for k in c.keywords:
+                if k.arg is None and isinstance(k.value, ast.Name):
+                    defs = [st.value for st in ast.walk(f.node) if isinstance(st, ast.Assign) and len(st.targets) == 1 and isinstance(st.targets[0], ast.Name) and st.targets[0].id == k.value.id]
+                    mutated = any(isinstance(x, ast.Subscript) and isinstance(x.ctx, (ast.Store, ast.Del)) and isinstance(x.value, ast.Name) and x.value.id == k.value.id for x in ast.walk(f.node)) or any(isinstance(x, ast.Call) and isinstance(x.func, ast.Attribute) and isinstance(x.func.value, ast.Name) and x.func.value.id == k.value.id and x.func.attr in ("pop", "update", "clear", "setdefault", "popitem") for x in ast.walk(f.node))
+                    if len(defs) == 1 and not mutated:
+                        d = defs[0]
+                        if isinstance(d, ast.Dict):
+                            for kk, vv in zip(d.keys, d.values):
+                                if isinstance(kk, ast.Constant) and kk.value == "ndmin":
+                                    ndmin = vv
+                        elif isinstance(d, ast.Call) and getattr(d.func, "id", None) == "dict":
+                            for kw in d.keywords:
+                                if kw.arg == "ndmin":
+                                    ndmin = kw.value
         ok = isinstance(ndmin, ast.Constant) and ndmin.value == 2
         why = "np.loadtxt squeezes single-row / single-column files to 1-D and the result reaches from_incidence_matrix (n, m = I.shape) without ndmin=2; a hypergraph with one node or one edge cannot be read back"
         if not ok:
